@@ -10,7 +10,8 @@ from wsgiref.util import setup_testing_defaults
 def environ_for(path, method='GET', accept=None, query='', extra=None):
     env = {}
     setup_testing_defaults(env)
-    env['PATH_INFO'] = path
+    from urllib.parse import unquote_to_bytes
+    env['PATH_INFO'] = unquote_to_bytes(path).decode('latin-1')      # PATH_INFO is the decoded path
     env['REQUEST_METHOD'] = method
     env['QUERY_STRING'] = query
     if method in ('POST',):
